@@ -147,6 +147,10 @@ class SourceModel:
                             continue
                         if 'property' in decs:
                             ci.getters[sub.name] = fi
+                        elif 'cached_property' in decs or 'functools.cached_property' in decs:
+                            # computed on first access, then stored on the instance: later accesses return that very object
+                            fi.cached_property = True
+                            ci.getters[sub.name] = fi
                         elif any(d.endswith('.setter') for d in decs):
                             ci.setters[sub.name] = fi
                         else:
